@@ -205,9 +205,16 @@ class PopBuilder:
         if k == "select":
             leaves = s.select_leaves(r[1])
             order = draw(st.permutations(leaves)) if len(leaves) > 1 else leaves
+            direct = s.select_direct_members(r[1])
             for lf in order:
                 if s.is_entity(lf):
                     c = self.candidates(lf)
+                    if lf not in direct and not self.cfg.get("allow_nested_select_complex_ref", False):
+                        # finding F43: an entity leaf reached through a nested select must not be a complex instance
+                        c2 = [i for i in c if not self.plan_[i][1]]
+                        if len(c2) < len(c):
+                            self.excl("reference to a complex instance through a nested select (known finding F43)")
+                        c = c2
                     if c:
                         return ["ref", self.ids[draw(st.sampled_from(c))]]
                     continue
@@ -670,3 +677,33 @@ def _feat(v, f, depth):
         f.add("binary")
     elif t == "e":
         f.add("enum")
+
+
+def has_nested_select_complex_ref(sch, pop):
+    """Shape of finding F43: a select-typed value that is a reference to a complex instance whose matching entity leaf
+    is not a direct member of the (outermost) select."""
+    cx = {i["id"]: [p["ent"].lower() for p in i["parts"]] for i in pop["instances"] if i["complex"]}
+    if not cx:
+        return False
+
+    def walk(tr, v):
+        if v[0] in ("null", "star"):
+            return False
+        r = sch.resolve(tr)
+        if r[0] == "agg" and v[0] == "agg":
+            return any(walk(r[1]["of"], x) for x in v[1])
+        if r[0] == "select":
+            if v[0] == "ref" and v[1] in cx:
+                direct = sch.select_direct_members(r[1])
+                return not any(sch.is_entity(d) and d in sch.closure(cx[v[1]]) for d in direct)
+            if v[0] == "typed":
+                return walk({"k": "named", "name": v[1].lower()}, v[2])
+        return False
+    for inst in pop["instances"]:
+        mem = [p["ent"] for p in inst["parts"]]
+        for part in inst["parts"]:
+            slots = sch.part_slots(part["ent"], mem) if inst["complex"] else sch.p21_slots(part["ent"])
+            for sl, v in zip(slots, part["vals"]):
+                if walk(sl["type"], v):
+                    return True
+    return False
